@@ -17,6 +17,7 @@ VERIF = os.path.dirname(os.path.dirname(os.path.abspath(__file__)))
 
 HARNESS_MODULES = {
     'C11': ['c11_prims'],
+    'C17': ['c17_version'],
 }
 
 EXIT_OK, EXIT_VIOLATION, EXIT_HARNESS = 0, 1, 3
